@@ -1362,6 +1362,14 @@ def main(repo: str, outdir: str, dry: bool = False) -> int:
         return (HEADER + "import Optyx.Py.VarsSupport\n\nset_option linter.unusedVariables false\n\n"
                 "namespace Optyx.Generated\nopen Optyx Optyx.Py.Api\n\n" + body + "\nend Optyx.Generated\n")
 
+    def f_degentry():
+        import py2lean_degentry
+        try:
+            body = py2lean_degentry.gen_degree_entry(src("analysis.py"), src("core/expressions.py"))
+        except py2lean_degentry.TranslateError as e:
+            raise TranslateError(str(e))
+        return HEADER + "namespace Optyx.Generated\n\n" + body + "\nend Optyx.Generated\n"
+
     def f_lpfast():
         import py2lean_lpfast
         try:
@@ -1423,7 +1431,7 @@ def main(repo: str, outdir: str, dry: bool = False) -> int:
                         ("DegreeStep", f_degstep), ("GradStep", f_gradstep), ("LPStep", f_lpstep), ("JacRowVec", f_jacrowvec),
                         ("ScipyPost", f_scipypost), ("ProblemEdit", f_problemedit),
                         ("ConstraintFns", f_constraintfns), ("SvsStep", f_svs), ("BuildStep", f_buildstep), ("Operators", f_operators), ("GradIterCtl", f_graditer), ("LPFast", f_lpfast), ("HookShape", f_hookshape), ("ClosurePaths", f_closurepaths), ("EvalStep", f_evalstep),
-                        ("VarsStep", f_varsstep)):
+                        ("VarsStep", f_varsstep), ("DegreeEntry", f_degentry)):
         path = os.path.join(outdir, fname + ".lean")
         try:
             text = make()
